@@ -148,11 +148,18 @@ def _cache_part(prop, n_quick=500, n_thorough=8000):
     return CacheFamily(prop, "oracle_C09", False, n_quick, n_thorough, "cached_histories")
 
 
+def _spell_part(prop):
+    # "writing the two bounds in either order gives the same result", for every spelling of the bounds
+    # (ints, aware datetimes of any zone, with sub-second parts): the part is shared with C15
+    from .props_pure import SpellFamily
+    return SpellFamily(prop)
+
+
 CHECKS = {
     "C01": Check("C01", [ExprFamily("C01", "s", "oracle_C01", {"D1": "c_noD1"}, gen_set_slices, 6000, 40000)], ASSUME),
     "C02": Check("C02", [ExprFamily("C02", "s", "oracle_events", {"D1": "c_noD1", "D2": "c_noD2"}, gen_event_slices, 6000, 40000)], ASSUME),
     "C03": Check("C03", [ExprFamily("C03", "s", "oracle_C03", {"D1": "c_noD1", "D2": "c_noD2", "D3": "c_noD3"}, gen_all_slices, 6000, 40000), _cache_part("C03")], ASSUME),
-    "C04": Check("C04", [ExprFamily("C04", "p", "oracle_C04", {"D1": "p_noD1", "D2": "p_noD2", "D3": "p_noD3"}, gen_fwd_rev, 5000, 30000), _cache_part("C04")], ASSUME),
+    "C04": Check("C04", [ExprFamily("C04", "p", "oracle_C04", {"D1": "p_noD1", "D2": "p_noD2", "D3": "p_noD3"}, gen_fwd_rev, 5000, 30000), _cache_part("C04"), _spell_part("C04")], ASSUME),
     "C05": Check("C05", [ExprFamily("C05", "p", "oracle_C05", {"D1": "p_noD1", "D2": "p_noD2"}, gen_nested_windows, 5000, 30000), _cache_part("C05")], ASSUME),
     "C06": Check("C06", [ExprFamily("C06", "s", "oracle_C06", {}, gen_masks, 6000, 40000)], ASSUME),
 }
